@@ -577,7 +577,7 @@ func init() {
 		Count: func(tier string) int { return 3 * len(c18Cases(tier)) }, Eval: c18ListEval})
 	RegisterCheck("C18", func(c *Ctx) {
 		c.Level = "exploration"
-		c.Rule = "complete enumeration of a type grammar (16 leaf kinds incl. []byte, time.Time, interface{}, json.RawMessage, json.Number, net.IP; constructors pointer/slice/array/map[string]/map[int]/struct to depth 1 (quick) or 3 (thorough); 20 field-tag variants), 216 repeated-occurrence shapes, 24 deep repeated-occurrence shapes (first occurrence 2-7 object levels below the root), 12 embedding shapes and 18 compiled recursive/generic/standard-library types, each x 3 generation styles; oracle: independent python jsonschema Draft 2020-12 validator, RFC 6901 $ref resolution, field names compared with a reference model that is itself checked against encoding/json's output on every case"
+		c.Rule = "complete enumeration of a type grammar (16 leaf kinds incl. []byte, time.Time, interface{}, json.RawMessage, json.Number, net.IP; constructors pointer/slice/array/map[string]/map[int]/struct to depth 1 (quick) or 3 (thorough); 26 field-tag variants (incl. member names error, result, jsonrpc, method, id, params)), 216 repeated-occurrence shapes, 24 deep repeated-occurrence shapes (first occurrence 2-7 object levels below the root), 12 embedding shapes and 18 compiled recursive/generic/standard-library types, each x 3 generation styles; oracle: independent python jsonschema Draft 2020-12 validator, RFC 6901 $ref resolution, field names compared with a reference model that is itself checked against encoding/json's output on every case"
 		c.Assume = append(c.Assume, "types beyond the grammar depth and field-tag combinations beyond one varied field per struct are not enumerated", "fully populated value = 3 deterministic variants per type (typical, boundary, alternative); recursive values are cut at depth 2 and types whose only finite values contain a mandatory nil pointer are exempt from the acceptance clause")
 		c.Enumerate("c18/hook")
 		c.Enumerate("c18/schemas")
